@@ -1,10 +1,13 @@
 """C17 - File and TextFile return exactly the bytes, text and lines that were written (spec/FileModel.tla)."""
+import concurrent.futures as cf
 import os
+import threading
+import time
 import subprocess
 import vlib
 
 META = {
-    "engine": "FileModel.tla,FileModelLineReader.tla,FileModelBig.tla",
+    "engine": "FileModel.tla,FileModelLineReader.tla,FileModelBig.tla,FileModelDir.tla,FileModelPath.tla,FileModelSeek.tla",
     "technique": "TLC exhaustive enumeration of FileModel.tla histories (put/write/append/stream/copy/move/remove through "
                  "temporaries, open/write/flush/close/read/readLine and size/exists/isFile/content/firstBytes/text/lines queries "
                  "through a long-lived object, between its own writes, closes and reopens) replayed on real File/"
@@ -14,7 +17,14 @@ META = {
                  "the implementation-shaped chunked line reader checked against the property-level Lines in TLC; "
                  "recorded random executions (sizes to 200000, lines to 2000, BOM texts) validated by TLC; contents of "
                  "1..16 MiB validated against FileModelBig.tla (run-length contents, operators proved equal to the explicit ones "
-                 "in small scope by TLC)",
+                 "in small scope by TLC); growth round: FileModelDir.tla (a finite tree of directories and files with a current "
+                 "directory: Directory::create/createOne/remove/removeRecursive/copy/move/change/current/createTemp, File::put/copy/"
+                 "move/remove, items/files/subdirs with wildcard patterns, exists/isFile/isDirectory/size/content for every node "
+                 "kind), FileModelPath.tla (the path algebra of asl::Path as pure operators on byte strings with its laws) and "
+                 "FileModelSeek.tla (one object in the modes READ/WRITE/APPEND/RW with seek/position/end/read/write/readLine, size "
+                 "after flush, modification times, File::temp, writers through other objects) - every transition / state emitted "
+                 "by TLC replayed on the real classes (harness/c17_fs_replay), and recorded random executions of all three "
+                 "(harness/c17_fs_record) validated by Trace_FileModelDir / Trace_FileModelSeek / Trace_FileModelPath",
     "design_ref": "DESIGN.md section 6, C17",
     "level_text": "TLC enumerates every history of write/append/reopen/read/copy/move calls up to the configured bound on "
                   "FileModel.tla (one path with a long-lived handle that is also queried itself in every order with its own "
@@ -24,7 +34,18 @@ META = {
                   "FileModelLineReader.tla transcribes readLine()/lines() with a parametric chunk size and TLC checks it "
                   "equal to Lines for every text over {a,CR,LF} up to the bound and chunk sizes 2..4(5); recorded random "
                   "executions are accepted by TLC only if every returned byte, line and text equals what the "
-                  "specification computes from the logged calls.",
+                  "specification computes from the logged calls. "
+                  "FileModelDir.tla: TLC enumerates every history of Directory/File calls up to the bound from an empty and a "
+                  "populated tree, checks that failed calls change nothing, copy/move exactness (also onto the source itself), "
+                  "locality of remove/removeRecursive, listings = children, and every transition is replayed: results of the calls, "
+                  "the whole tree seen through POSIX, every node query and every items/files/subdirs listing must agree. "
+                  "FileModelPath.tla: every path over {a,b,.,..,/,a.b,.x(,\\,B)} up to the bound (and pairs of them) is a state; TLC "
+                  "decides the laws (directory()/name() and noExt()/extension() recompose, absolute() is canonical and idempotent, "
+                  "equals() is compatible with operator/, removeDDots keeps the meaning) and the real Path must return exactly "
+                  "the computed values. FileModelSeek.tla: TLC enumerates histories of open/seek/read/write/readLine/flush/close in "
+                  "the four modes with writers through other objects, checks locality of writes, append-only, read exactness, "
+                  "monotone modification time; every transition is replayed. Recorded random executions of the three are "
+                  "accepted by TLC only if every logged result is the one the specification computes.",
     "level_note": "Bounded (constants in spec/MC_FileModel*.cfg). Contents above 200000 bytes are validated only for put/append/"
                   "write/copy/move/content/firstBytes/read/size/text on run-length coded contents (FileModelBig; contents made "
                   "of up to a few dozen runs; lines()/readLine are not exercised at that size); the largest content checked is "
@@ -34,7 +55,17 @@ META = {
                   "file information of its first size()/isFile()/content()/text() until close(), so the long-lived object is "
                   "asked those only while that information is still true or after close() (ghost hknown, guard InfoOK). text() folds CR LF "
                   "in UTF-16 files by design, generated UTF-16 texts contain no CR LF pair. Trusted: TLC, clang ASan/LSan, "
-                  "POSIX read-back, the run-length coder of the harness.",
+                  "POSIX read-back, the run-length coder of the harness. "
+                  "Growth modules: outcomes the documentation (or POSIX rename) leaves open are not generated and accepted either "
+                  "way when recorded (copy of a directory, move of a directory onto an existing directory, removal/renaming of the "
+                  "current directory, the boolean of a copy/move onto itself, a copy/move source written with a trailing "
+                  "separator, the text of operator/ when more than two separators meet and of removeDDots on relative paths - "
+                  "there the relation is validated on the library's own answer -, paths beginning with //, the position after "
+                  "open(APPEND) before the first write, readLine(String&)'s boolean for a last line without LF, size() of "
+                  "directories, listing order). Times are whole seconds; 'now' is accepted within one second of the wall-clock "
+                  "bracket of the execution. Not covered: symbolic links, permissions, cross-device moves, concurrent processes, "
+                  "Windows drive letters / UNC paths, wildcard patterns with more than one '*' or with '?'. File::temp and "
+                  "Directory::createTemp create below /tmp (hard-coded in the library); those are removed by the harness.",
 }
 
 HARNESS = ["c17_replay.cpp"]
@@ -42,66 +73,223 @@ HARNESS = ["c17_replay.cpp"]
 CASE_LIMIT = ("--case-timeout-ms", "90000")
 
 
+FS_HARNESS = ["c17_fs_replay.cpp"]
+
+
 def run(ctx):
     lib = vlib.build_lib("asan")
-    rep = vlib.build_harness(lib, "c17_replay", HARNESS)
-    rec = vlib.build_harness(lib, "c17_record", ["c17_record.cpp"])
+    ctx.exhaustive = True
+    ctx.rule = ("one case per transition of the FileModel / FileModelDir / FileModelSeek state graphs (history of File/TextFile/"
+                "Directory calls with the results the calls must return + expected observation of all paths / of the whole tree) "
+                "and one case per state of FileModelPath (a path or a pair of paths with every value Path must return); "
+                "non-trivial = history with >= 2 calls / path of >= 2 bytes; distinct = distinct case lines (hash)")
+    # independent lanes (the four FileModel lanes use the module under four names - MC_FileModel / MC_FileModelH, with and
+    # without ".tla": vlib's TLC metadir is per name)
+    global _SLOTS
+    _SLOTS = threading.BoundedSemaphore(ctx.pick(6, 3))
+    with cf.ThreadPoolExecutor(7) as ex:
+        # (the lanes with the longest TLC runs first: they get the TLC slots first)
+        lanes = [ex.submit(lane_histories, ctx, lib), ex.submit(lane_tree, ctx, lib), ex.submit(lane_path_seek, ctx, lib),
+                 ex.submit(lane_handle, ctx, lib), ex.submit(lane_text_v, ctx, lib), ex.submit(lane_big, ctx, lib),
+                 ex.submit(lane_tree_v, ctx, lib)]
+        err = None
+        for f in lanes:
+            try:
+                f.result()
+            except Exception as e:      # (let the other lanes finish: their violations are still reported)
+                err = err or e
+        if err:
+            raise err
     tier = "quick" if ctx.quick else "thorough"
-    # (1) the implementation-shaped line reader refines Lines (pure TLC)
-    ctx.model("FileModelLineReader", "MC_FileModelLineReader_" + tier, timeout=ctx.pick(300, 1800), xmx="8g")
-    # (2) histories
+    ctx.assumptions += [
+        "exhaustive within the constants of spec/MC_FileModel_%s.cfg, MC_FileModel_handle_%s.cfg, MC_FileModel_text_%s.cfg, "
+        "MC_FileModel_big_%s.cfg, MC_FileModelLineReader_%s.cfg, MC_FileModelDir_%s.cfg (thorough: + _wide), MC_FileModelPath_%s.cfg, "
+        "MC_FileModelSeek_%s.cfg; beyond them only the recorded random executions apply"
+        % ((tier,) * 8),
+        "usage discipline of the documented API: read back through a fresh object or after close()/flush(); no writes to a "
+        "path by other objects while the long-lived object has it open; the long-lived object is asked for size()/isFile()/"
+        "content()/text() only while the file information it remembers from an earlier query (kept until close()) still "
+        "describes the file (FileModel!InfoOK) - after close() every query must reflect the bytes of the path; reading and "
+        "writing through one RW object alternate only with a seek()/flush() in between (C standard)",
+        "contents of 1..16 MiB are sampled (recorder mode 1) as sequences of long runs and compared in run-length form",
+        "the directory tree is finite (12 / 41 nodes enumerated, 84 nodes recorded; names a, b, a.b, .x; three levels); the "
+        "current directory and its ancestors are never removed or renamed; single-process",
+        "memory errors/leaks are observed by ASan/LSan on the replayed and recorded executions, not decided by the model",
+    ]
+
+
+W = lambda ctx: ctx.pick(6, 8)      # TLC workers per lane (the lanes share the machine)
+# at most this many TLC model-checking JVMs at a time (the lanes overlap TLC with replaying / recording, not TLC with TLC x 7:
+# the machine is shared and the kernel kills JVMs when memory runs out)
+_SLOTS = threading.BoundedSemaphore(4)
+
+
+def model(ctx, *a, **kw):
+    with _SLOTS:
+        try:
+            return ctx.model(*a, **kw)
+        except vlib.HarnessError as e:
+            # a JVM killed by the kernel (exit -9: the machine ran out of memory, other checks run next to this one) says
+            # nothing about the model: once more, a little later
+            if "TLC exit -9" not in str(e):
+                raise
+            vlib.log("C17: %s - TLC was killed (out of memory on the shared machine), running it again" % (a[1] if len(a) > 1 else a[0]))
+            time.sleep(45)
+            return ctx.model(*a, **kw)
+
+
+def lane_histories(ctx, lib):
+    rep = vlib.build_harness(lib, "c17_replay", HARNESS)
+    tier = "quick" if ctx.quick else "thorough"
     cases = os.path.join(ctx.tmp, "c17.cases")
-    r = ctx.model("MC_FileModel", "MC_FileModel_" + tier, emit_to=cases, timeout=ctx.pick(600, 3000), xmx="8g",
+    r = model(ctx, "MC_FileModel", "MC_FileModel_" + tier, emit_to=cases, timeout=ctx.pick(600, 3000), xmx="4g", workers=W(ctx),
                   ignore_cov=("MCPutShape", "MCPutEnc", "MCHLines", "MCHQuery", "MCHCloseClosed"))
     if r.coverage.get("MCHLines", (0, 0))[1] == 0:
         raise vlib.HarnessError("MC_FileModel_%s: action MCHLines never generated" % tier)
-    ctx.exhaustive = True
-    ctx.rule = ("one case per transition of the FileModel state graph (history of File/TextFile/Directory calls with the results "
-                "the calls must return + expected observation of all paths); non-trivial = history with >= 2 calls; "
-                "distinct = distinct case lines (hash)")
     ctx.replay(rep, cases, label="R/FileModel", args=CASE_LIMIT, timeout=ctx.pick(900, 5400), env={"VERIF_TMP": ctx.tmp})
     os.unlink(cases)
+
+
+def lane_handle(ctx, lib):
+    rep = vlib.build_harness(lib, "c17_replay", HARNESS)
+    tier = "quick" if ctx.quick else "thorough"
+    # (1) the implementation-shaped line reader refines Lines (pure TLC)
+    model(ctx, "FileModelLineReader", "MC_FileModelLineReader_" + tier, timeout=ctx.pick(300, 1800), xmx="4g", workers=W(ctx))
     # (2b) handle histories: the long-lived object is asked itself (size / exists / isFile / content / firstBytes / text / lines /
     # readLine loop) between its own writes, closes and reopens and writes to its path by temporaries, in every order
-    r = ctx.model("MC_FileModel", "MC_FileModel_handle_" + tier, emit_to=cases, timeout=ctx.pick(600, 3000), xmx="8g",
+    cases = os.path.join(ctx.tmp, "c17h.cases")
+    r = model(ctx, "MC_FileModelH", "MC_FileModel_handle_" + tier, emit_to=cases, timeout=ctx.pick(600, 3000), xmx="4g", workers=W(ctx),
                   ignore_cov=("MCStream", "MCPutShape", "MCPutEnc", "MCHLines"))
     for act in ("MCHQuery", "MCHCloseClosed", "MCHLines"):
         if r.coverage.get(act, (0, 0))[1] == 0:
             raise vlib.HarnessError("MC_FileModel_handle_%s: action %s never generated" % (tier, act))
     ctx.replay(rep, cases, label="R/FileModel-handle", args=CASE_LIMIT, timeout=ctx.pick(900, 5400), env={"VERIF_TMP": ctx.tmp})
     os.unlink(cases)
-    # (3) line shapes at the real chunk size and BOM-encoded texts
-    r = ctx.model("MC_FileModel", "MC_FileModel_text_" + tier, emit_to=cases, timeout=ctx.pick(600, 3000), xmx="8g",
-                  ignore_cov=("MCPutBin", "MCPutText", "MCAppend", "MCStream", "MCRemove", "MCCopy", "MCMove", "MCHWrite",
-                              "MCHPut", "MCHFlush", "MCHClose", "MCHRead", "MCHLines", "MCHQuery", "MCHCloseClosed"))
-    ctx.replay(rep, cases, label="R/FileModel-text", args=CASE_LIMIT, timeout=ctx.pick(900, 5400), env={"VERIF_TMP": ctx.tmp})
-    os.unlink(cases)
+
+
+def lane_big(ctx, lib):
+    rep = vlib.build_harness(lib, "c17_replay", HARNESS)
+    tier = "quick" if ctx.quick else "thorough"
+    cases = os.path.join(ctx.tmp, "c17big.cases")
     # (3b) contents around the 65536-byte copy block through put / copy / move / handle writes
-    ctx.model("MC_FileModel", "MC_FileModel_big_" + tier, emit_to=cases, timeout=ctx.pick(600, 3000), xmx="8g",
+    model(ctx, "MC_FileModelH.tla", "MC_FileModel_big_" + tier, emit_to=cases, timeout=ctx.pick(600, 3000), xmx="8g", workers=ctx.pick(4, 8),
               ignore_cov=("MCPutText", "MCAppend", "MCStream", "MCHRead", "MCHLines", "MCPutShape", "MCPutEnc", "MCHQuery",
                           "MCHCloseClosed"))
     ctx.replay(rep, cases, label="R/FileModel-big", args=CASE_LIMIT, timeout=ctx.pick(900, 5400), env={"VERIF_TMP": ctx.tmp})
     os.unlink(cases)
+
+
+def lane_text_v(ctx, lib):
+    rep = vlib.build_harness(lib, "c17_replay", HARNESS)
+    rec = vlib.build_harness(lib, "c17_record", ["c17_record.cpp"])
+    tier = "quick" if ctx.quick else "thorough"
+    env = {"VERIF_TMP": ctx.tmp}
+    cases = os.path.join(ctx.tmp, "c17b.cases")
+    # (3) line shapes at the real chunk size and BOM-encoded texts
+    r = model(ctx, "MC_FileModel.tla", "MC_FileModel_text_" + tier, emit_to=cases, timeout=ctx.pick(600, 3000), xmx="4g", workers=ctx.pick(4, 8),
+                  ignore_cov=("MCPutBin", "MCPutText", "MCAppend", "MCStream", "MCRemove", "MCCopy", "MCMove", "MCHWrite",
+                              "MCHPut", "MCHFlush", "MCHClose", "MCHRead", "MCHLines", "MCHQuery", "MCHCloseClosed"))
+    ctx.replay(rep, cases, label="R/FileModel-text", args=CASE_LIMIT, timeout=ctx.pick(900, 5400), env=env)
+    os.unlink(cases)
     # (4) V
-    files = ctx.record(rec, ctx.pick(12, 64), ctx.pick(2500, 12000), "V/FileModel", env={"VERIF_TMP": ctx.tmp})
+    files = ctx.record(rec, ctx.pick(12, 64), ctx.pick(2500, 12000), "V/FileModel", env=env)
     ctx.validate_traces("Trace_FileModel", "Trace_FileModel", files, label="V/FileModel", timeout=ctx.pick(600, 3000))
     largest = _largest(files)
     # (5) contents of 1 MiB .. 16 MiB: FileModelBig (run-length contents; equivalence with explicit sequences checked by TLC)
-    ctx.model("FileModelBig", "MC_FileModelBig", timeout=600, must_cover=False)
-    big = ctx.record(rec, ctx.pick(3, 12), ctx.pick(45, 200), "V/FileModelBig", extra_args=("--mode", "1"), env={"VERIF_TMP": ctx.tmp})
+    model(ctx, "FileModelBig", "MC_FileModelBig", timeout=600, must_cover=False, workers=4)
+    big = ctx.record(rec, ctx.pick(3, 12), ctx.pick(45, 200), "V/FileModelBig", extra_args=("--mode", "1"), env=env)
     ctx.validate_traces("Trace_FileModelBig", "Trace_FileModelBig", big, label="V/FileModelBig", timeout=ctx.pick(600, 3000))
     ctx.extra["largest_content_bytes_validated"] = max(largest, _largest(big, ("z", "r")))
-    ctx.assumptions += [
-        "exhaustive within the constants of spec/MC_FileModel_%s.cfg, MC_FileModel_handle_%s.cfg, MC_FileModel_text_%s.cfg, "
-        "MC_FileModel_big_%s.cfg, MC_FileModelLineReader_%s.cfg; beyond them only the recorded random executions apply"
-        % (tier, tier, tier, tier, tier),
-        "usage discipline of the documented API: read back through a fresh object or after close()/flush(); no writes to a "
-        "path by other objects while the long-lived object has it open; the long-lived object is asked for size()/isFile()/"
-        "content()/text() only while the file information it remembers from an earlier query (kept until close()) still "
-        "describes the file (FileModel!InfoOK) - after close() every query must reflect the bytes of the path",
-        "contents of 1..16 MiB are sampled (recorder mode 1) as sequences of long runs and compared in run-length form",
-        "memory errors/leaks are observed by ASan/LSan on the replayed and recorded executions, not decided by the model",
-    ]
+
+
+def _kinds(path, field="k"):
+    """how many emitted cases of each kind / whose last call is each op (vacuity of runs made without -coverage)"""
+    import json, collections
+    n = collections.Counter()
+    with open(path) as fh:
+        for ln in fh:
+            try:
+                e = json.loads(ln)
+            except ValueError:
+                continue
+            n[e.get(field)] += 1
+    return n
+
+
+def _last_calls(path):
+    """last call of every emitted history as "op:result" (1 / 0 / - for calls without a boolean)"""
+    import json, collections
+    n = collections.Counter()
+    with open(path) as fh:
+        for ln in fh:
+            try:
+                h = json.loads(ln).get("hist") or []
+            except ValueError:
+                continue
+            if h:
+                r = h[-1].get("r")
+                n["%s:%s" % (h[-1].get("op"), "-" if not isinstance(r, bool) else int(r))] += 1
+    return n
+
+
+def lane_tree(ctx, lib):
+    """FileModelDir: the directory tree.  R: every transition (V: lane_tree_v, recorded random executions on 84 nodes)."""
+    fsrep = vlib.build_harness(lib, "c17_fs_replay", FS_HARNESS)
+    tier = "quick" if ctx.quick else "thorough"
+    env = {"VERIF_TMP": ctx.tmp}
+    cases = os.path.join(ctx.tmp, "c17dir.cases")
+    # quick: 12 nodes, histories of 2 calls from the empty and a populated tree; thorough: 3 calls from the populated tree, and
+    # ("wide") 2 calls on the 41-node universe with all patterns
+    runs = [("MC_FileModelDir_" + tier, "R/FileModelDir")] + ([] if ctx.quick else [("MC_FileModelDir_wide", "R/FileModelDir-wide")])
+    for cfg, label in runs:
+        # (-coverage makes this run several times slower; vacuity is decided on the emitted cases: every call, succeeding and failing)
+        model(ctx, "MC_FileModelDir", cfg, emit_to=cases, timeout=ctx.pick(600, 3000), xmx="3g", workers=W(ctx), must_cover=False)
+        seen = _last_calls(cases)
+        need = {"create:1", "create:0", "createone:1", "createone:0", "put:1", "put:0", "remove:1", "remove:0", "rmrec:1", "rmrec:0",
+                "copy:1", "copy:0", "move:1", "move:0", "change:1", "change:0", "temp:-"}
+        if need - set(seen):
+            raise vlib.HarnessError("%s: calls never generated: %s" % (cfg, sorted(need - set(seen))))
+        ctx.replay(fsrep, cases, label=label, args=CASE_LIMIT + ("--batch", "300"), timeout=ctx.pick(900, 5400), env=env)
+        os.unlink(cases)
+
+
+def lane_tree_v(ctx, lib):
+    fsrec = vlib.build_harness(lib, "c17_fs_record", ["c17_fs_record.cpp"])
+    env = {"VERIF_TMP": ctx.tmp}
+    files = ctx.record(fsrec, ctx.pick(8, 32), ctx.pick(1500, 6000), "V/FileModelDir", extra_args=("--mode", "0"), env=env)
+    ctx.validate_traces("Trace_FileModelDir", "Trace_FileModelDir", files, label="V/FileModelDir", timeout=ctx.pick(600, 3000))
+
+
+def lane_path_seek(ctx, lib):
+    """FileModelPath (pure operators, every state a case) and FileModelSeek (one object with a position)."""
+    import json
+    fsrep = vlib.build_harness(lib, "c17_fs_replay", FS_HARNESS)
+    fsrec = vlib.build_harness(lib, "c17_fs_record", ["c17_fs_record.cpp"])
+    tier = "quick" if ctx.quick else "thorough"
+    env = {"VERIF_TMP": ctx.tmp}
+    # the current directory of the path cases: a real directory whose bytes TLC reads (so that absolute() has complete expected values)
+    cwd = os.path.realpath(os.path.join(ctx.tmp, "pcwd", "c", "d"))
+    os.makedirs(cwd, exist_ok=True)
+    cwdfile = os.path.join(ctx.tmp, "pcwd.json")
+    with open(cwdfile, "w") as f:
+        json.dump({"cwd": list(cwd.encode())}, f)
+        f.write("\n")
+    cases = os.path.join(ctx.tmp, "c17path.cases")
+    model(ctx, "FileModelPath", "MC_FileModelPath_" + tier, emit_to=cases, timeout=ctx.pick(600, 3000), xmx="3g", workers=W(ctx),
+              must_cover=False, env={"C17_CWD": cwdfile})
+    n = _kinds(cases)
+    if not n.get("path") or not n.get("pair"):
+        raise vlib.HarnessError("MC_FileModelPath_%s: no path / pair cases emitted (%s)" % (tier, dict(n)))
+    ctx.replay(fsrep, cases, label="R/FileModelPath", args=CASE_LIMIT + ("--batch", "300"), timeout=ctx.pick(900, 5400), env=env)
+    os.unlink(cases)
+    cases = os.path.join(ctx.tmp, "c17seek.cases")
+    model(ctx, "MC_FileModelSeek", "MC_FileModelSeek_" + tier, emit_to=cases, timeout=ctx.pick(600, 3000), xmx="3g", workers=W(ctx))
+    ctx.replay(fsrep, cases, label="R/FileModelSeek", args=CASE_LIMIT + ("--batch", "300"), timeout=ctx.pick(900, 5400), env=env)
+    os.unlink(cases)
+    files = ctx.record(fsrec, ctx.pick(8, 32), ctx.pick(1500, 6000), "V/FileModelSeek", extra_args=("--mode", "1"), env=env)
+    ctx.validate_traces("Trace_FileModelSeek", "Trace_FileModelSeek", files, label="V/FileModelSeek", timeout=ctx.pick(600, 3000))
+    files = ctx.record(fsrec, ctx.pick(4, 16), ctx.pick(1000, 4000), "V/FileModelPath", extra_args=("--mode", "2"), env=env)
+    ctx.validate_traces("Trace_FileModelPath", "Trace_FileModelPath", files, label="V/FileModelPath", timeout=ctx.pick(600, 3000))
 
 
 def _largest(files, keys=("d", "r")):
@@ -122,14 +310,22 @@ def _largest(files, keys=("d", "r")):
 
 
 def replay(path):
+    import json
     lib = vlib.build_lib("asan")
-    if os.path.basename(path).startswith("rec-") or path.endswith(".ndjson"):
-        big = "FileModelBig" in os.path.basename(path)
-        if not big and not path.endswith(".ndjson"):
-            import json
-            big = "--mode" in json.load(open(path)).get("args", [])
+    base = os.path.basename(path)
+    if base.startswith("rec-") or path.endswith(".ndjson"):
+        # V: a rejected trace (name begins with the label) or a recorder crash descriptor
+        grow = {"FileModelDir": ("Trace_FileModelDir", "0"), "FileModelSeek": ("Trace_FileModelSeek", "1"), "FileModelPath": ("Trace_FileModelPath", "2")}
+        info = {} if path.endswith(".ndjson") else json.load(open(path))
+        for key, (spec, mode) in grow.items():
+            if key in base or (info.get("recorder") == "c17_fs_record" and info.get("args", [])[-1:] == [mode]):
+                return vlib.replay_recorded(os.path.abspath(path), lib, "c17_fs_record", ["c17_fs_record.cpp"], spec, spec)
+        big = "FileModelBig" in base or "--mode" in info.get("args", [])
         spec = "Trace_FileModelBig" if big else "Trace_FileModel"
-        return vlib.replay_recorded(path, lib, "c17_record", ["c17_record.cpp"], spec, spec)
-    rep = vlib.build_harness(lib, "c17_replay", HARNESS)
+        return vlib.replay_recorded(os.path.abspath(path), lib, "c17_record", ["c17_record.cpp"], spec, spec)
+    with open(path) as fh:
+        first = fh.readline()
+    grow = '"k":"dir"' in first or '"k":"seek"' in first or '"k":"path"' in first or '"k":"pair"' in first
+    rep = vlib.build_harness(lib, "c17_fs_replay", FS_HARNESS) if grow else vlib.build_harness(lib, "c17_replay", HARNESS)
     r = subprocess.run([rep, "--single", path], env=vlib.run_env())
     return 1 if r.returncode == 1 else (0 if r.returncode == 0 else 2)
